@@ -350,6 +350,7 @@ def run_check(prop, tier, seed, spec, entries, ov, solver, workdir, t0, known):
             "feasible_paths": total_paths,
             "obligation_instances": oblig,
             "obligation_instances_discharged_unsat": disch,
+            "obligation_instances_decided_by_constant_folding": sum(h.get("folded", 0) for h in hres),
             "distinct_obligations": msgs[:80],
             "queries": sum(h["queries"] for h in hres),
             "solver": " ".join(solver) + " (4.8.12)",
